@@ -159,7 +159,7 @@ SLOT_TEMPLATES = [
     "# {T} [{L}]\n\n## {T} <!-- {T} > {T} --> {T}\n\n{T}\n", "# {T}[^{L}]\n\n{T}[^{W}]\n\n[^{L}]: {T}\n\n[^{W}]: {T}\n", "{T}[^{W}]\n\n# {T}[^{L}]\n\n{T}\n\n[^{L}]: {T}\n\n[^{W}]: {T}\n",
     ".. toc::\n\n# {T}\n\n## {T}\n\n# {T}\n", "```{{toc}}\n```\n\n# {T}\n\n### {T}\n", ".. toc:: {T}\n   :min-level: {N}\n   :max-level: {N}\n\n# {T}\n\n## {T}\n",
     ".. note:: {T}\n   :class: {T}\n\n   {T}\n", "```{{note}} {T}\n:class: {T}\n\n{T}\n```\n", ".. image:: {U}\n   :alt: {T}\n   :width: {T}\n   :height: {T}\n   :align: {T}\n   :target: {U}\n",
-    ".. figure:: {U}\n   :figwidth: {T}\n   :figclass: {T}\n\n   {T}\n\n   {T}\n", ".. figure:: {U}\n\n   {T}\n", "```{{figure}} {U}\n\n{T}\n```\n", ".. note::\n\n   {T}\n", "```{{note}}\n{T}\n```\n", ".. image:: {U}\n\n   {T}\n", ".. include:: {U}\n", ".. {W}:: {T}\n\n   {T}\n", "```{{{W}}} {T}\n{T}\n```\n",
+    ".. figure:: {U}\n   :figwidth: {T}\n   :figclass: {T}\n\n   {T}\n\n   {T}\n", ".. figure:: {U}\n\n   {T}\n", "```{{figure}} {U}\n\n{T}\n```\n", ".. note::\n\n   {T}\n", "```{{note}}\n{T}\n```\n", ".. image:: {U}\n\n   {T}\n", "- {T}\n:::{{note}}\n{T}\n:::\n", "- {T}\n```{{note}}\n{T}\n```\n", "1. {T}\n.. note:: {T}\n", "> {T}\n:::{{note}} {T}\n:::\n", ".. include:: {U}\n", ".. {W}:: {T}\n\n   {T}\n", "```{{{W}}} {T}\n{T}\n```\n",
     "<{U}>\n", "[{T}]({U} \"{T}\")\n", "![{T}]({U})\n", "[{T}](<{U}> '{T}')\n", "{T} <http://example.com/{L}> {T}\n", "[http://e.com/{L}](<http://e.com/{L}>)\n",
     "{T}\n{S}{T}\n{S}{T}\n", "{T} `a\n{S}b` {T}\n", "{T} <a\n{S}href='x'> {T}\n", "> {T}\n{S}{T}\n", "- {T}\n{S}{T}\n",
     "{N}. {T}\n{N}. {T}\n", "{N}) {T}\n\n{N}) {T}\n", "- {T}\n\n  {N}. {T}\n",
